@@ -178,6 +178,8 @@ class Base:
         if isinstance(v, RefV):
             return v.term != NONE
         if isinstance(v, Cont):
+            if getattr(v, 'some', None) is not None:
+                return z3.And(v.some, self.c_len(v, st) != 0)
             return self.c_len(v, st) != 0
         if isinstance(v, TupleV):
             return z3.BoolVal(len(v.items) > 0)
